@@ -1,3 +1,5 @@
 import ChiaModel.Props.C08
+#print axioms ChiaModel.C08.generator_length
+#print axioms ChiaModel.C08.base_cost_offset
 #print axioms ChiaModel.C11.clvmBytesLen_ok
 #print axioms ChiaModel.C04.limit_exact
